@@ -188,12 +188,11 @@ Definition search_memory (s : state) (p : params) : list entry :=
          (rev (buf s)).
 
 (** readNextEntry after the line has been read: the entry if it is to be
-    returned, and the stamp reported for it (0 for entries dropped as ignored:
-    the named result is still zero there). *)
+    returned, and the stamp reported for it (always the entry's own time). *)
 Definition process (c : config) (p : params) (e : entry) : option entry * Z :=
   if negb (forallb (crit_quick c e) (p_crits p)) then (None, e_time e)
-  else if is_ignored c e then (None, 0)
-  else if client_ignored c e then (None, 0)
+  else if is_ignored c e then (None, e_time e)
+  else if client_ignored c e then (None, e_time e)
   else if negb (p_match c p e) then (None, e_time e)
   else (Some e, e_time e).
 
